@@ -106,9 +106,33 @@ def operations(level):
     return ops
 
 
+def operations_two(level):
+    """Alphabets of the two-instrument worlds: a second primary q (same class, declares float32) may register
+    a buffer of the first one (q.register_buffer("spot", p.spot)); whatever is then done to p must not reach q."""
+    if level == "two":
+        return [["simulate"], ["q.share"], ["to", "float64"], ["to_kw", "float32"], ["alias", "half"],
+                ["alias", "double"], ["d.to", "float64"], ["d.alias", "float"], ["to_tensor", "float64"],
+                ["simulate_init"]]
+    return operations("core") + [["q.share"]]
+
+
+Q_DECLARED = "float32"
+# operations after which the persistent hedger is not queried in the quick tier (they neither cast nor simulate)
+NO_HEDGE = ("set_default", "register_buffer", "to_device", "cpu")
+
+
+class _ParamFree(torch.nn.Module):
+    """A hedging model without parameters (nothing for Hedger.to() to cast), fed with prev_hedge."""
+
+    def forward(self, x):
+        return 0.5 * x[..., :1] + 0.25 * x[..., -1:]
+
+
 def _model_op(op):
     """Operation as the reference automaton sees it."""
     k = op[0]
+    if k == "q.share":
+        return ["noop"]
     if k.endswith("to_instrument_kw"):
         return [k.replace("to_instrument_kw", "to_instrument")] + op[1:]
     return op
@@ -117,6 +141,9 @@ def _model_op(op):
 def _apply(world, op):
     kind, arg = op[0], (op[1] if len(op) > 1 else None)
     target = world.p
+    if kind == "q.share":
+        world.q.register_buffer("spot", world.p.spot)
+        return
     if kind.startswith("d."):
         target, kind = world.d, kind[2:]
     if kind == "to":
@@ -167,6 +194,9 @@ class World:
         self.history = [list(h) for h in history]
         self.reads = reads           # observe the derived quantities after EVERY operation of the replay
         self.read_problems = []      # (position, site, name, observed dtype/exception, expected dtype)
+        self.hedger = None           # the persistent hedger (see _hedge)
+        self._features = {}
+        self.q = self.dq = None
         self.n_reads = 0
         self._built = False
         self.p = self.d = None
@@ -190,6 +220,20 @@ class World:
                 kw["device"] = torch.device(ctor[2])
             self.p = getattr(I, self.cfg["primary"])(dt=DT_STEP, **kw)
             self.d = _derivative(self.cfg["derivative"], self.p)
+            # a second instrument of the same class that declares float32, and a derivative on it
+            kwq = dict(PRIMARY_KW.get(self.cfg["primary"], {}))
+            self.q = getattr(I, self.cfg["primary"])(dt=DT_STEP, dtype=DTYPES[Q_DECLARED], **kwq)
+            self.dq = _derivative(self.cfg["derivative"], self.q)
+            n = len(self.history) - 1
+            full_reads = self.cfg.get("reads", "full") == "full"
+            # thorough: the persistent hedger hedges after every operation; quick: before and after the last one,
+            # unless the last one neither casts nor simulates
+            hedge_from = 1 if full_reads else max(1, n - 1)
+            if not full_reads and n >= 1:
+                last = self.history[n]
+                if last[0] == "q.share" or last[0].split(".")[-1] in NO_HEDGE or (
+                        len(last) > 1 and last[1] in DM.NONFLOAT):
+                    hedge_from = n + 1
             for i, op in enumerate(self.history[1:], start=1):
                 try:
                     _apply(self, op)
@@ -198,12 +242,41 @@ class World:
                     raise
                 except Exception as e:  # noqa: BLE001 - judged against the automaton by the caller
                     self.events.append(e)
-                if self.reads:
+                if self.reads and (full_reads or i >= n - 1):    # quick tier: before and after the last operation
                     self._read(i)
+                    if i >= hedge_from and self.cfg.get("persistent_hedger", True):
+                        self._hedge(i)
             self.default = NAME_OF[torch.get_default_dtype()]
         finally:
             torch.set_default_dtype(prev)
         return self
+
+    def _hedge(self, position):
+        """ONE hedger (parameter-free model, prev_hedge among its inputs, never cast) lives through the whole
+        history and hedges after the operations that leave simulated series: its hedge has their dtype."""
+        from pfhedge.nn import Hedger
+        bufs = dict(self.p.named_buffers())
+        if "spot" not in bufs:
+            return
+        want = bufs["spot"].dtype
+        if self.hedger is None:
+            base = ["moneyness", "time_to_maturity"] if self.cfg["derivative"] in OPTION_KINDS \
+                else ["underlier_spot", "zeros"]
+            self.hedger = Hedger(_ParamFree(), base + ["prev_hedge"])
+        try:
+            with torch.no_grad():
+                out = self.hedger.compute_hedge(self.d)
+        except HarnessError:
+            raise
+        except Exception as e:  # noqa: BLE001
+            if not is_backend_unsupported(e, want):
+                self.read_problems.append((position, "Hedger.compute_hedge", "compute_hedge[persistent hedger]",
+                                           f"{type(e).__name__}: {str(e)[:120]}", NAME_OF.get(want, str(want))))
+            return
+        self.n_reads += 1
+        if out.dtype != want:
+            self.read_problems.append((position, "Hedger.compute_hedge", "compute_hedge[persistent hedger]",
+                                       NAME_OF.get(out.dtype, str(out.dtype)), NAME_OF.get(want, str(want))))
 
     def _read(self, position):
         """Reads interleaved with the operations (a concrete object may remember what it handed out):
@@ -225,9 +298,26 @@ class World:
         if self.cfg.get("reads", "full") == "core":      # quick tier: the features that read derived series
             names = [n for n in names if n in ("volatility", "variance", "underlier_spot", "time_to_maturity")]
         for name in names:
-            items.append(("features." + name, name + ".get(None)",
-                          lambda name=name: get_feature(name).of(d).get(None)))
+            if name not in self._features:
+                self._features[name] = get_feature(name).of(d)
+            items.append(("features." + name, name + ".get(None)", lambda f=self._features[name]: f.get(None)))
+        qb = dict(self.q.named_buffers())
         with torch.no_grad():
+            if "spot" in qb:        # the second instrument: what is computed from it is in ITS declared dtype
+                try:
+                    out = self.dq.payoff()
+                    self.n_reads += 1
+                    if out.dtype != DTYPES[Q_DECLARED]:
+                        self.read_problems.append((position, "derivative(" + self.cfg["derivative"] + ").payoff",
+                                                   "payoff[second instrument]",
+                                                   NAME_OF.get(out.dtype, str(out.dtype)), Q_DECLARED))
+                except HarnessError:
+                    raise
+                except Exception as e:  # noqa: BLE001
+                    if not is_backend_unsupported(e, qb["spot"].dtype):
+                        self.read_problems.append((position, "derivative(" + self.cfg["derivative"] + ").payoff",
+                                                   "payoff[second instrument]",
+                                                   f"{type(e).__name__}: {str(e)[:120]}", Q_DECLARED))
             for site, name, fn in items:
                 try:
                     out = fn()
@@ -267,7 +357,9 @@ class World:
         return (NAME_OF.get(decl, None if decl is None else str(decl)),
                 None if dev is None else str(dev),
                 tuple((n, NAME_OF.get(b.dtype, str(b.dtype))) for n, b in p.named_buffers()),
-                self.default)
+                self.default,
+                (NAME_OF.get(getattr(self.q, "dtype", None), str(getattr(self.q, "dtype", None))),
+                 tuple((n, NAME_OF.get(b.dtype, str(b.dtype))) for n, b in self.q.named_buffers())))
 
     def buffer_devices(self):
         return tuple(str(b.device) for _, b in self.p.named_buffers())
@@ -302,6 +394,12 @@ def before_state(cfg, hist):
     return DM.State(o[0], o[1], o[2], o[3])
 
 
+def before_q(cfg, hist):
+    """Observed (declared dtype, buffers) of the second instrument after ``hist``."""
+    before_state(cfg, hist)
+    return OBSERVED[(_ckey(cfg), _hkey(hist))][4]
+
+
 # ---------------------------------------------------------------------------------
 # transition oracle
 # ---------------------------------------------------------------------------------
@@ -321,8 +419,9 @@ def check_transition(ctx, cfg, hist, op, after, dead):
     after_m, expect_exc = DM.step(before_m, _model_op(op), sim_buffers(cfg["primary"]))
     after.build()
     exc = after.events[-1]
-    obs = after.observe()
-    OBSERVED[(_ckey(cfg), _hkey(full))] = obs
+    obs_all = after.observe()
+    obs, obs_q = obs_all[:4], obs_all[4]
+    OBSERVED[(_ckey(cfg), _hkey(full))] = obs_all
     exp = after_m.key()
     decl_cls = "undeclared" if before_m.declared is None else "declared"
     if expect_exc is not None:
@@ -364,6 +463,22 @@ def check_transition(ctx, cfg, hist, op, after, dead):
         ctx.violation(site, f"{'+'.join(what)}_after_{_opname(op)}:{decl_cls}",
                       f"after {_opname(op)} the instrument is {obs}, the contract gives {exp}; history {full}",
                       observed=repr(obs), expected=repr(exp), block=block, family="dtype_history")
+    # the second instrument: only q.share touches it, and its buffers stay in the dtype IT declares
+    q_before = before_q(cfg, hist)
+    q_exp = q_before
+    if op[0] == "q.share" and exc is None:
+        names = [n for n, _ in q_before[1]]
+        q_exp = (Q_DECLARED, tuple((n, Q_DECLARED) for n in names + ([] if "spot" in names else ["spot"])))
+    if obs_q != q_exp:
+        ctx.violation(cfg["primary"] + ".register_buffer" if op[0] == "q.share" else site,
+                      f"second_instrument_changed_by_{op[0]}" if op[0] != "q.share" else "second_instrument_after_share",
+                      f"a second instrument (declares {Q_DECLARED}) that registered the first one's spot is "
+                      f"{obs_q} after {_opname(op)} on the first, expected {q_exp}; history {full}",
+                      observed=repr(obs_q), expected=repr(q_exp), block=block, family="dtype_history")
+    elif any(d != obs_q[0] for _, d in obs_q[1]):
+        ctx.violation(cfg["primary"] + ".register_buffer", "second_instrument_buffer_dtype_differs_from_declared",
+                      f"second instrument {obs_q}; history {full}", observed=repr(obs_q), expected=Q_DECLARED,
+                      block=block, family="dtype_history")
     # reads interleaved with the replay: what is handed out after this operation has the series' dtype
     for pos, rsite, name, got, want in after.read_problems:
         if pos == len(full) - 1:
@@ -513,6 +628,11 @@ def check_state(ctx, cfg, history, world, level):
                     query("Hedger.compute_loss", f"compute_loss[{vname}]",
                           lambda: hedger.compute_loss(d, n_paths=3), want)
                     query("Hedger.price", f"price[{vname}]", lambda: hedger.price(d, n_paths=3), want)
+                    if vname == "linear":       # ensemble means over several simulations
+                        query("Hedger.compute_loss", "compute_loss[n_times=2]",
+                              lambda: hedger.compute_loss(d, n_paths=3, n_times=2), want)
+                        query("Hedger.price", "price[n_times=2]",
+                              lambda: hedger.price(d, n_paths=3, n_times=2), want)
                     got = {nm: b.dtype for nm, b in p.named_buffers() if nm in sim_buffers(cfg["primary"])}
                     if any(v != want for v in got.values()):
                         ctx.violation(cfg["primary"] + ".simulate", f"resimulated_dtype:{state_cls}",
@@ -532,8 +652,8 @@ CTORS = [["ctor", None, None], ["ctor", "float64", None], ["ctor", "float16", No
 @family
 def dtype_bfs(ctx, block):
     cfg = {"primary": block["primary"], "derivative": block["derivative"], "default0": block["default0"],
-           "reads": block.get("queries", "full")}
-    ops = operations(block["ops"])
+           "reads": block.get("queries", "full"), "persistent_hedger": block.get("persistent_hedger", True)}
+    ops = operations_two(block["ops"]) if block["ops"].startswith("two") else operations(block["ops"])
     if block.get("extra_op") and block["extra_op"] not in ops:
         ops = ops + [block["extra_op"]]
     dead = set()
@@ -555,7 +675,11 @@ def dtype_bfs(ctx, block):
         return w.observe()
 
     def enabled(before, op):
-        return _hkey(before.history) not in dead
+        if _hkey(before.history) in dead:
+            return False
+        if op[0] == "q.share":      # needs a simulated spot on the first instrument
+            return any(n == "spot" for n, _ in before_state(cfg, before.history).buffers)
+        return True
 
     def on_transition(hist, op, before, after):
         check_transition(ctx, cfg, hist, op, after, dead)
@@ -605,7 +729,7 @@ def dtype_history(ctx, block):
         if not ok:
             return
     # end-to-end: the state reached equals the automaton folded over the whole history
-    obs, exp = World(cfg, h).observe(), model_state(cfg, h).key()
+    obs, exp = World(cfg, h).observe()[:4], model_state(cfg, h).key()
     if obs != exp:
         ctx.violation(cfg["primary"] + ".history", "end_state_differs_from_automaton",
                       f"after {h} the instrument is {obs}, the automaton gives {exp}", observed=repr(obs),
@@ -635,6 +759,7 @@ def run(ctx):
              "the abstract state / queries in states whose declared dtype differs from the global default")
     ctx.alphabet("operations (quick)", [_opname(o) for o in operations("core")])
     ctx.alphabet("operations (thorough)", [_opname(o) for o in operations("full")])
+    ctx.alphabet("operations (two-instrument worlds, quick)", [_opname(o) for o in operations_two("two")])
     ctx.alphabet("constructors", CTORS)
     ctx.alphabet("derivative classes", list(DERIVATIVES))
     ctx.assume("values do not influence dtype behaviour, so states with equal (declared dtype, declared device, "
@@ -654,7 +779,15 @@ def run(ctx):
         for i, prim in enumerate(primaries):
             blocks.append({"primary": prim, "derivative": DERIVATIVES[i % len(DERIVATIVES)], "default0": "float32",
                            "ctors": CTORS[:3], "ops": "core", "extra_op": extra, "queries": "core",
-                           "queries_per": "signature"})
+                           "queries_per": "signature",
+                           # the hedger code does not depend on the primary class: the persistent hedger rides
+                           # along for two classes in the quick tier (thorough: all)
+                           "persistent_hedger": i < 2})
+        # two-instrument worlds (a second instrument shares a buffer of the first): every primary class
+        for i, prim in enumerate(primaries):
+            blocks.append({"primary": prim, "derivative": DERIVATIVES[(i + 3) % len(DERIVATIVES)],
+                           "default0": "float32", "ctors": CTORS[:2], "ops": "two", "queries": "core",
+                           "queries_per": "signature", "persistent_hedger": False})
         for b in blocks:
             ctx.run("dtype_bfs", b)
     else:
@@ -665,4 +798,8 @@ def run(ctx):
                         continue
                     blocks.append({"primary": prim, "derivative": der, "default0": default0, "ctors": CTORS,
                                    "ops": "full", "queries": "full", "queries_per": "state"})
+        for i, prim in enumerate(primaries):
+            blocks.append({"primary": prim, "derivative": DERIVATIVES[(i + 3) % len(DERIVATIVES)],
+                           "default0": "float32", "ctors": CTORS, "ops": "two_full", "queries": "full",
+                           "queries_per": "state"})
         ctx.run_parallel("dtype_bfs", blocks, workers=min(8, int(os.environ.get("VERIF_WORKERS", "8"))))
